@@ -29,7 +29,7 @@ sys.path.insert(0, os.path.join(os.path.dirname(__file__), "..", "lib"))
 sys.path.insert(0, os.path.dirname(__file__))
 from vlib import GO_SUM_MOD, REPO, MachineryError, main, tree_hash, write_files  # noqa: E402
 from c07 import (LAB, MOD, node_paths, par_map, rec_pkg_config, rec_project_events, rec_root_config,  # noqa: E402
-                 corrupt_case, final_coverage_zero, guarded, run_bin, tick, tlc_job, validate_with_selftest)
+                 corrupt_case, final_coverage_zero, guarded, run_bin, run_level_trace, tick, tlc_job, validate_with_selftest)
 
 PROBE = (Path(__file__).resolve().parent.parent / "probes" / "select" / "order.templ").read_text()
 SCHEMA_A = {"$schema": "http://json-schema.org/draft-07/schema#", "type": "object"}
@@ -258,7 +258,7 @@ def run_world(ctx, w, cap, min_runs):
         o1, o2, of = orders_of(res.trace)
         seen1.add(o1)
         seenf.add(of)
-        runs.append({"exit": res.code, "tree": tree_hash(w["run"], skip=GO_TOOL_FILES), "orders": (o1, o2, of), "trace": res.trace,
+        runs.append({"res": res, "exit": res.code, "tree": tree_hash(w["run"], skip=GO_TOOL_FILES), "orders": (o1, o2, of), "trace": res.trace,
                      "panic": res.panicked, "brief": res.brief()})
         enough1 = n_conf <= 1 or len(seen1) >= n_conf
         enoughf = n_files <= 1 or len(seenf) >= (2 if res.code != 0 else min(n_files, 3))
@@ -270,7 +270,7 @@ def run_world(ctx, w, cap, min_runs):
             res = run_bin(ctx, w["cwd"], args=w["args"], timeout=240, tag=f"i{r}")
             if res.timed_out:
                 raise MachineryError(f"mockery timed out re-running order world {w['wi']}")
-            reruns.append({"exit": res.code, "tree": tree_hash(w["run"], skip=GO_TOOL_FILES), "panic": res.panicked, "brief": res.brief(),
+            reruns.append({"res": res, "exit": res.code, "tree": tree_hash(w["run"], skip=GO_TOOL_FILES), "panic": res.panicked, "brief": res.brief(),
                            "selected": [(e["pkg"], e["iface"]) for e in res.trace if e.get("ev") == "Select" and e.get("gen")]})
     w["runs"], w["reruns"] = runs, reruns
     w["seen1"], w["seenf"] = seen1, seenf
@@ -588,6 +588,9 @@ def run(ctx):
                        "contract_outcome": {"exit": w["c"]["outcome"]["exit"], "files": [(f["k"], f["j"]) for f in w["c"]["outcome"]["files"]]},
                        "contract": "spec/OrderTrace.tla"})
     tick(ctx, "trace_validation", t0)
+    t0 = time.time()
+    run_level_trace(ctx, "C06", [rr["res"] for w in worlds for rr in w["runs"] + w["reruns"]], 900000 if thorough else 90000)
+    tick(ctx, "run_level_trace", t0)
     ctx.cov["evaluations"] += n_runs
     ctx.cov["worlds_model_checked"] = len(cases)
     ctx.cov["worlds_run"] = len(worlds)
